@@ -275,8 +275,30 @@ def conclude(ctx, obs, t0, tgen, tsolve):
             lines.append('VIOLATION property=%s replay=%s' % (pid, v['replay']))
             print('  bounded monitor fired: %s' % v.get('what'))
             exit_code = 1
-    # baseline comparison
+    # an obligation that was discharged on the unchanged tree (baseline) and that the solvers can no longer discharge
+    # after both budgets has FAILED: it is reported as the violation, without a failing input (the solver gave none).
+    # Obligations that are new, could not be generated (construct outside the subset) or are shape scans stay undecided.
     base = load_baseline(pid)
+    failed = []
+    if base is not None and not args.update_baseline:
+        need0 = Counter(base.get('proved', []))
+        have0 = Counter(stable_id(o.id) for o in obs if o.status in ('proved', 'known-finding'))
+        short = {k: n - have0.get(k, 0) for k, n in need0.items() if have0.get(k, 0) < n}
+        for o in unknown:
+            k = stable_id(o.id)
+            if o.status == 'unknown' and o.kind in ('POST', 'EXC', 'PRE', 'INV', 'VAR', 'FRAME', 'REL', 'LEMMA') \
+                    and short.get(k, 0) > 0:
+                short[k] -= 1
+                failed.append(o)
+    for o in failed:
+        o.detail = 'discharged on the unchanged tree; now: %s (z3 and cvc5, normal and extended budgets)' % (o.detail or 'unknown')
+        path, _ = RP.replay(o, pid)
+        lines.append('VIOLATION property=%s replay=%s no-failing-input-found' % (pid, path))
+        print('  failed: %s  (%s)' % (o.id, o.desc))
+        o.status = 'failed'
+        exit_code = 1
+    unknown = [o for o in unknown if o.status != 'failed']
+    # baseline comparison
     vanished = []
     if base is not None and not args.update_baseline:
         have = Counter(stable_id(o.id) for o in obs if o.status in ('proved', 'known-finding'))
